@@ -40,3 +40,26 @@ def generate(run, tmpd):
     run.extra['sweep_by_table'] = per
     run.extra['sweep_vocabulary_sizes'] = {k: len(v) for k, v in voc.items()}
     return jobs
+
+
+def geometry_jobs(run, tmpd):
+    """Section-to-segment mapping (-l): the geometry grid images of spec/Geometry.tla (C02's generator) inside the envelope
+    both tools implement: p_filesz = 0 segments (GNU readelf refuses p_filesz > p_memsz), no .tbss / zero-size-in-PT_DYNAMIC/
+    PT_NOTE geometry (outside the clause groups), not PT_INTERP (prints the interpreter), no unnamed processor-specific type."""
+    res = run.tlc('Geometry', 'Geometry_quick', workers=min(8, core.NPROC))
+    jobs = []
+    k = 0
+    for i, case in enumerate(run.cases(res.out)):
+        if case.get('mode') != 'inseg':
+            continue
+        if case['fs'] != 0 or any(2 in row for row in case['expect']) or case['t'] == {'n': 3} or 'd' in case['t']:
+            continue
+        k += 1
+        if run.tier == 'quick' and k % 3:
+            continue
+        path = os.path.join(tmpd, 'geo_%05d.elf' % i)
+        with open(path, 'wb') as f:
+            f.write(concretise(case['chunks']))
+        jobs.append(('sweep', 'mapping#p_type=%s#%d' % (case['t'].get('n'), i), '-l', path))
+    run.extra['sweep_by_table']['mapping'] = len(jobs)
+    return jobs
